@@ -63,4 +63,12 @@ def auxOK (ints aux ackedDel : List Nat) : Bool :=
   ((ints.zip (aux.zip (ackedDel ++ List.replicate ints.length 0))).all
     (fun t => (t.2.1 == 0 || t.2.1 == t.1) && (if t.1 ≤ t.2.2 ∧ 0 < t.1 then t.2.1 == 0 else true)))
 
+/-- A document that every writer rewrites in each of its batches (C04): it carries the writer and the
+    batch number of whoever wrote it last.  Seen together with the writers' batch numbers, it is absent
+    exactly when no batch has been applied, and otherwise names the latest batch of the writer it names
+    (a copy from an earlier batch of that writer was overwritten by that writer itself). -/
+def sharedOK (ints : List Nat) (present : Bool) (w n : Nat) : Bool :=
+  if ints.all (· == 0) then !present
+  else present && decide (0 < n) && (ints.getD w 0 == n)
+
 end Bleve.History
